@@ -36,6 +36,11 @@ ASSUMPTIONS = ["both executions use zero-filled scratch (allocator seam ZERO) an
                "the worker itself (python -m sim.ref36 <scenario>), same environment and kernel cache"]
 
 
+# float-valued per-world model fields that matter to collision and dynamics (perturbed multiplicatively as in C10)
+BATCHABLE = ["geom_margin", "geom_gap", "geom_rbound", "geom_aabb", "geom_friction", "geom_size", "geom_solref", "body_mass", "body_inertia", "dof_damping",
+             "dof_armature", "jnt_stiffness", "geom_pos", "body_pos"]
+
+
 def _prog(seed, tag, features=None, force=None, curated_p=0.3):
   r = _rng.gen("prog", seed, tag)
   spec, _ = scen.pick_model(seed, _rng.mix(tag) % (1 << 30), features=features, size="s", curated_p=curated_p)
@@ -51,17 +56,46 @@ def gen(seed, idx, tier):
   r = _rng.gen("c36", seed, idx)
   feats = {"boxes": True, "plane": True, "dense_contacts": True}
   target = _prog(seed, f"T{idx}", features=feats)
+  rb = _rng.gen("c36batch", seed, idx)  # separate stream (added later): the other draws of a run are unchanged
+  if rb.random() < 0.35:
+    # the target itself holds per-world model parameters (different values in every world): kernels and generated functions that are
+    # specialised on batch sizes are then exercised with sizes that differ from the polluters'
+    nw = int(rb.choice([2, 3, 3, 4]))
+    names = [str(k) for k in rb.choice(BATCHABLE, size=int(rb.integers(1, 4)), replace=False)]
+    target = dict(target, nworld=nw, batch={k: (nw if rb.random() < 0.7 else 1) for k in names}, batch_factor_seed=int(rb.integers(1 << 30)))
   pol = []
   dims = []
   for j in range(int(r.integers(1, 6))):
     kind = str(r.choice(["nativeccd_off", "other_cone", "other_solver", "other_jacobian", "sleep", "broadphase", "same_model_other_nworld",
-                         "batched_fields", "warn_overflow_off", "random", "multiccd_off", "tiny_caps"]))
+                         "batched_fields", "warn_overflow_off", "random", "multiccd_off", "tiny_caps", "same_model_flag_toggle",
+                         "same_model_flag_toggle", "same_model_other_batch", "same_model_other_option"]))
     dims.append(kind)
     t_opt = target["model"]["opt"]
     if kind == "nativeccd_off":
       p = _prog(seed, f"P{idx}.{j}", features={"boxes": True, "plane": True, "dense_contacts": True, "margin": False}, force={"opt": {"disableflags": 131072}}, curated_p=0.0)
     elif kind == "multiccd_off":
       p = _prog(seed, f"P{idx}.{j}", features=feats, force={"opt": {"disableflags": 524288}}, curated_p=0.0)
+    elif kind == "same_model_flag_toggle":
+      # the target itself with one or two disable/enable bits flipped: what an under-keyed cache cannot tell apart from the target
+      bits = [131072, 524288, 1024, 4096, 32768, 512, 8, 4, 32, 64, 2, 256]  # NATIVECCD MULTICCD FILTERPARENT REFSAFE EULERDAMP WARMSTART LIMIT FRICTIONLOSS SPRING DAMPER EQUALITY CLAMPCTRL
+      flip = 0
+      for b in r.choice(bits, size=int(r.integers(1, 3)), replace=False):
+        flip |= int(b)
+      o2 = dict(t_opt, disableflags=int(t_opt.get("disableflags", 0)) ^ flip)
+      if r.random() < 0.3:
+        o2["enableflags"] = int(t_opt.get("enableflags", 0)) ^ 2  # ENERGY
+      p = dict(target, model=dict(target["model"], opt=o2))
+    elif kind == "same_model_other_option":
+      o2 = dict(t_opt)
+      which = str(r.choice(["integrator", "timestep", "impratio", "iterations", "tolerance", "ccd_iterations"]))
+      o2[which] = {"integrator": str(r.choice(["euler", "implicitfast", "implicit", "rk4"])), "timestep": float(r.choice([0.001, 0.003, 0.008])), "impratio": float(r.choice([1.0, 3.0, 10.0])),
+                   "iterations": int(r.choice([1, 3, 30])), "tolerance": float(r.choice([1e-3, 1e-6])), "ccd_iterations": int(r.choice([2, 12, 50]))}[which]
+      p = dict(target, model=dict(target["model"], opt=o2))
+    elif kind == "same_model_other_batch":
+      # same model and the same fields batched, but for another number of worlds (usually fewer), with its own per-world values
+      nw = int(r.choice([1, 2, 2, 4]))
+      bf = target.get("batch") or {str(k): 0 for k in r.choice(BATCHABLE, size=2, replace=False)}
+      p = dict(target, nworld=nw, batch={k: nw for k in bf}, batch_factor_seed=int(r.integers(1 << 30)), init=dict(target["init"], seed=int(r.integers(1 << 30))))
     elif kind == "other_cone":
       p = dict(target, model=dict(target["model"], opt=dict(t_opt, cone="elliptic" if t_opt.get("cone") == "pyramidal" else "pyramidal")))
     elif kind == "other_solver":
@@ -75,7 +109,7 @@ def gen(seed, idx, tier):
     elif kind == "same_model_other_nworld":
       p = dict(target, nworld=int(target["nworld"] % 3 + 1), init=dict(target["init"], seed=int(r.integers(1 << 30))))
     elif kind == "batched_fields":
-      p = dict(target, batch={"body_mass": 2, "geom_friction": 2, "dof_damping": 2}, nworld=2)
+      p = dict(target, batch={"body_mass": 2, "geom_friction": 2, "dof_damping": 2}, nworld=2, batch_factor_seed=int(r.integers(1 << 30)))
     elif kind == "warn_overflow_off":
       p = dict(target, model=dict(target["model"], mopt=dict(target["model"].get("mopt") or {}, warn_overflow=False)), caps={"naconmax": 2, "njmax": 3})
     elif kind == "tiny_caps":
@@ -97,6 +131,16 @@ def _execute(prog, digests=True):
     mjm, m = core.make_model(prog["model"], batch_sizes=prog.get("batch"))
   except (NotImplementedError, ValueError):
     return None
+  if prog.get("batch") and prog.get("batch_factor_seed") is not None:
+    from . import c10
+
+    for name, b in sorted(prog["batch"].items()):
+      arr = c10._apply(m, "model." + name, c10._factors({"factor_seed": prog["batch_factor_seed"]}, "model." + name, b))
+      if name == "geom_margin":
+        # margins are zero in most models (a factor leaves them zero): world k additionally gets k+1 millimetres
+        v = arr.numpy()
+        for k in range(v.shape[0]):
+          v[k] += np.float32(0.004 * (k + 1))
   nworld = prog["nworld"]
   caps = prog.get("caps") or scen.ample_caps(mjm, nworld)
   try:
